@@ -1,12 +1,14 @@
 (** C29 — ranking is deterministic, finite and ordered.
     Model: Model/Score.v over exact rationals, constants in Generated/ScoreConsts.v (regenerated from
-    the Go source by translator/scoreconsts on every run).  Proofs: Proofs/Score.v.
+    the Go source by translator/scoreconsts on every run).  Proofs: Proofs/Score.v.  Section 6: Model/ScoreKind.v, Proofs/ScoreKind.v
+    (scoreSymbolKind tables, atom count, BM25 term frequencies: inside the model).
     Determinism is by construction: every score and every order below is a Gallina function of the
     index-derived features, the query weights and the options (the implementation's side of this
     claim is the Go oracle: bitwise-equal repeated searches — which found and led to the repair of
     the BM25 summation order, /repo e48ad27).  binary64 rounding is not modelled: see NOTES.md. *)
 From Coq Require Import QArith Sorting.Sorted Sorting.Permutation.
-From ZV Require Import Lib.Base Generated.ScoreConsts Model.Score Proofs.Score Model.ScoreBM25 Proofs.ScoreBM25.
+From Coq Require Import Lia.
+From ZV Require Import Lib.Base Generated.ScoreConsts Model.Score Proofs.Score Model.ScoreBM25 Proofs.ScoreBM25 Model.ScoreKind Proofs.ScoreKind.
 Open Scope Q_scope.
 
 (** ---- 1. Debug scoring never changes a score or an order: the whole ranking (file order, file
@@ -131,6 +133,78 @@ Theorem C29_bm25_term_order_irrelevant : forall L tfs tfs',
 Proof. exact bm25_sum_perm. Qed.
 Print Assumptions C29_bm25_term_order_irrelevant.
 
+(** ---- 6. The parts that sections 1-5 took as given features, inside the model (Model/ScoreKind.v).
+
+    6a. scoreSymbolKind + ctags.ParseSymbolKind.  The per-language / per-kind factors, the generic factors and
+    the Go-only modifiers (`+= 0.5` for an exported symbol, `*= 0.8` in a _test.go file) are GENERATED from the
+    source into Generated/ScoreConsts.v (c_kindGeneric, c_kindLangs, c_parseKind ...); [score_symbol_kind]
+    interprets the tables.  For EVERY language string, filename, symbol and kind the kind score lies in
+    [0, maxKindFactor * scoreKindMatch] — the hypothesis [kind_ok] of section 4 is thereby discharged.  The proof
+    computes over the generated tables ([tables_ok_true]): an edited factor re-runs it. *)
+Theorem C29_kind_score_bounded : forall lang fname exported kind,
+  0 <= score_symbol_kind lang fname exported kind <= c_maxKindFactor * c_scoreKindMatch.
+Proof. exact score_symbol_kind_bounds. Qed.
+Print Assumptions C29_kind_score_bounded.
+
+(** 6b. The atom count of scoreFile (visitMatchAtoms over the match tree with the `known` map): boosts are
+    transparent, a subtree is only entered through children known to match, never more atoms than leaves. *)
+Theorem C29_atom_count : forall t,
+  (count_atoms t <= leaves t)%nat /\ count_atoms (MBoost t) = count_atoms t /\
+  forall ch, Forall (fun p : bool * mtree => fst p = false) ch ->
+             count_atoms (MAnd ch) = O /\ count_atoms (MOr ch) = O /\ count_atoms (MAndLine ch) = O.
+Proof. intros t. split; [apply count_le_leaves|]. split; [reflexivity|]. exact count_unknown. Qed.
+Print Assumptions C29_atom_count.
+
+(** 6c. The extended model: a file is described by its language, name, match tree (with known bits), repository
+    rank, document number and, per candidate, the boundary flags, the filename/symbol position flags, the symbol's
+    ctags kind string + "first rune upper case", and the binary64 product of the boosts above it.  [fin_of_x]
+    derives kind scores, atom count and effective weights.  With no hypothesis except "rank is a uint16 and the
+    document number is below the document count": every file score and match score is non-negative and below
+    2^1023; the debug flag changes no score and no order. *)
+Theorem C29_ext_scores_finite : forall dbg f,
+  xfin_ok f ->
+  0 <= snd (fst (score_xfile dbg f)) <= file_bound c_maxBoostWeight /\
+  Forall (fun m => 0 <= fst (match_score dbg m) <= base_bound * c_maxBoostWeight) (fi_matches (fin_of_x f)) /\
+  file_bound c_maxBoostWeight < inject_Z (2 ^ 1023).
+Proof. exact xscores_finite. Qed.
+Print Assumptions C29_ext_scores_finite.
+
+Theorem C29_ext_debug_neutral : forall fs f,
+  rank_all_x true fs = rank_all_x false fs /\
+  fst (score_xfile true f) = fst (score_xfile false f) /\ snd (score_xfile false f) = [].
+Proof. intros fs f. split; [apply xrank_neutral | apply xscore_neutral]. Qed.
+Print Assumptions C29_ext_debug_neutral.
+
+(** the ordering theorems 2 and 3 quantify over arbitrary inputs and hold for the extended model as they are: *)
+Theorem C29_ext_matches_sorted : forall dbg f,
+  Sorted (fun a b : nat * Q => snd b <= snd a) (rank_matches dbg (fin_of_x f)).
+Proof. intros dbg f. apply (proj1 (C29_matches_sorted dbg (fin_of_x f))). Qed.
+Print Assumptions C29_ext_matches_sorted.
+
+(** 6d. BM25 with the term-frequency extraction (calculateTermFrequency) inside the model.  The frequency of a
+    term is the number of its candidates, filename and symbol matches counting importantTermBoost, divided
+    towards zero by lowPriorityFilePenalty for a low-priority file (generated constants) — a function of the
+    MULTISET of candidates: the order in which candidates are gathered does not matter. *)
+Theorem C29_term_frequency_spec : forall cs low t,
+  tf_lookup (tf_extract cs low) t = if low then Z.quot (tf_spec cs t) low_penalty else tf_spec cs t.
+Proof. exact tf_extract_spec. Qed.
+Print Assumptions C29_term_frequency_spec.
+
+Theorem C29_term_frequency_order_irrelevant : forall cs cs' low t,
+  Permutation cs cs' -> tf_lookup (tf_extract cs low) t = tf_lookup (tf_extract cs' low) t.
+Proof. exact tf_extract_perm. Qed.
+Print Assumptions C29_term_frequency_order_irrelevant.
+
+(** scoreFileBM25 / scoreLineBM25 for EVERY candidate list, every boost product and every length: non-negative
+    and at most (k+1) * #candidates * maxBoostWeight (< 2^1023 for fewer than 2^600 candidates): the hypotheses
+    of theorem 5 (non-negative frequencies, L >= 0) are discharged by the extraction. *)
+Theorem C29_bm25_ext_bounded : forall cs low flen total ndocs ws fl llen,
+  (0 <= flen)%Z -> (0 <= total)%Z -> (0 <= ndocs)%Z -> (0 <= llen)%Z ->
+  0 <= bm25_file cs low flen total ndocs ws <= bm25_cap (length cs) /\
+  0 <= bm25_line fl cs llen ws <= bm25_cap (length cs).
+Proof. intros. split; [now apply bm25_file_bounds | now apply bm25_line_bounds]. Qed.
+Print Assumptions C29_bm25_ext_bounded.
+
 (** ---- non-vacuity *)
 Example ex_bm25 : bm25_score (3 # 2) [5; 1; 2]%Z [1; 2] == 3797376 # 514577 /\ Permutation [5; 1; 2]%Z [2; 5; 1]%Z.
 Proof. split; [vm_compute; reflexivity|]. apply Permutation_sym. apply (Permutation_cons_app [5;1]%Z []%Z). reflexivity. Qed.
@@ -202,3 +276,25 @@ Example ex_special_weights :
   x_candidate_wins 0 XPosInf 0 = false /\ x_candidate_wins 500 (XFin 2) 1200 = false /\ x_candidate_wins 500 (XFin 3) 1200 = true /\
   cap_weight (XFin (c_maxBoostWeight * 10)) = XFin c_maxBoostWeight /\ x_weight_raises_max XNaN 1 = false /\ x_weight_raises_max XPosInf 1 = true.
 Proof. vm_compute. repeat split. Qed.
+(* non-vacuity of 6: Go function `Needle` in a _test.go file: (8 + 0.5) * 0.8 * 100; an unknown language falls back to the
+   generic table; "methodSpec" is lower-cased before the comparison and therefore parses as Other *)
+Definition ex_go : list N := [71;111]%N.
+Definition ex_testgo : list N := [97;95;116;101;115;116;46;103;111]%N.
+Example ex_kind_scores :
+  score_symbol_kind ex_go ex_testgo true (parse_kind [70;117;110;99]%N) == 680 /\
+  score_symbol_kind [120]%N ex_testgo true 2%N == 1000 /\
+  parse_kind [109;101;116;104;111;100;83;112;101;99]%N = c_parseKindDefault.
+Proof. vm_compute. repeat split. Qed.
+Definition ex_tree : mtree := MOr [(true, MAtom); (false, MAtom); (true, MBoost (MAnd [(true, MAtom); (true, MSymSubstr); (true, MSkip)]))].
+Example ex_atoms : count_atoms ex_tree = 3%nat /\ leaves ex_tree = 4%nat.
+Proof. split; reflexivity. Qed.
+Definition ex_xfin : xfin :=
+  {| xf_lang := ex_go; xf_name := ex_testgo; xf_tree := ex_tree; xf_rank := 65535; xf_doc := 2; xf_ndocs := 3;
+     xf_matches := [[(1%Z, [{| x_sb := true; x_eb := true; x_kind := XSym true true (Some ([70;117;110;99]%N, true)); x_weight := XPosInf |}])];
+                    [(4%Z, [{| x_sb := true; x_eb := false; x_kind := XFile true false true; x_weight := XNaN |}])]] |}.
+Example ex_xfin_ok : xfin_ok ex_xfin /\ Qlt 0 (snd (fst (score_xfile false ex_xfin))).
+Proof. split; [split; simpl; lia|]. vm_compute. reflexivity. Qed.
+Example ex_tf :
+  tf_extract [([1]%N, true); ([2]%N, false); ([1]%N, false); ([2]%N, false)] false = [([1]%N, 6%Z); ([2]%N, 2%Z)] /\
+  tf_extract [([1]%N, true); ([2]%N, false); ([1]%N, false); ([2]%N, false)] true = [([1]%N, 1%Z); ([2]%N, 0%Z)].
+Proof. split; vm_compute; reflexivity. Qed.
